@@ -932,23 +932,24 @@ Proof.
     destruct (run_closing q s1 beh n1) as [[s2 e2] n2]. exact Y.
 Qed.
 
-Lemma SI_timer_fire s c : SI s -> SI (timer_fire s c).
+Lemma SI_timer_fire fx s c : SI s -> SI (timer_fire fx s c).
 Proof.
   intros H. unfold timer_fire.
+  destruct (fx && _); [apply SI_close_timer; exact H|].
   eapply SI_same; [| |apply (SI_upd_c s c (fun x => c_set_inflight true (c_set_start (now s) (c_set_timer TIdle x))))];
     try reflexivity; auto.
   cbn. discriminate.
 Qed.
 
 (* an invariant that the four ingredients of the timer pass keep is kept by the pass *)
-Lemma fire_ready_inv (P : st -> Prop) beh :
-  (forall s c, P s -> P (timer_fire s c)) ->
+Lemma fire_ready_inv (P : st -> Prop) fx beh :
+  (forall s c, P s -> P (timer_fire fx s c)) ->
   (forall s os, P s -> P (fst (apis s os))) ->
-  forall l s cnt, P s -> P (fst (fst (fire_ready beh l s cnt))).
+  forall l s cnt, P s -> P (fst (fst (fire_ready fx beh l s cnt))).
 Proof.
   intros Pf Pa. induction l as [|[c|id] l IH]; intros s cnt H; cbn [fire_ready]; auto.
   pose proof (Pa s (beh cnt) H) as X. destruct (apis s (beh cnt)) as [s1 e1]. cbn [fst] in X.
-  pose proof (IH s1 (S cnt) X) as Y. destruct (fire_ready beh l s1 (S cnt)) as [[s2 e2] n2]. exact Y.
+  pose proof (IH s1 (S cnt) X) as Y. destruct (fire_ready fx beh l s1 (S cnt)) as [[s2 e2] n2]. exact Y.
 Qed.
 
 Lemma collect_inv (P : st -> Prop) :
@@ -964,18 +965,18 @@ Proof.
   destruct items; [apply X; auto|]. apply Pu. apply X. auto.
 Qed.
 
-Lemma run_timers_inv (P : st -> Prop) beh :
+Lemma run_timers_inv (P : st -> Prop) fx beh :
   (forall s c, P s -> P (upd_c s c (c_set_timer TReady))) ->
   (forall s l, P s -> P (set_ut s l)) ->
-  (forall s c, P s -> P (timer_fire s c)) ->
+  (forall s c, P s -> P (timer_fire fx s c)) ->
   (forall s os, P s -> P (fst (apis s os))) ->
-  forall s cnt, P s -> P (fst (fst (run_timers beh s cnt))).
+  forall s cnt, P s -> P (fst (fst (run_timers fx beh s cnt))).
 Proof.
   intros Pr Pu Pf Pa s cnt H. unfold run_timers.
   apply fire_ready_inv; auto. apply collect_inv; auto.
 Qed.
 
-Lemma SI_run_timers beh s cnt : SI s -> SI (fst (fst (run_timers beh s cnt))).
+Lemma SI_run_timers fx beh s cnt : SI s -> SI (fst (fst (run_timers fx beh s cnt))).
 Proof.
   apply (run_timers_inv SI).
   - intros s0 c H. apply SI_upd_c; auto. cbn. discriminate.
@@ -995,8 +996,8 @@ Proof.
   pose proof (SI_run_closing (closingq s1) _ beh n1 H1) as Y.
   destruct (run_closing (closingq s1) (set_closingq s1 []) beh n1) as [[s2 e2] n2]. cbn [fst] in *.
   assert (H2 : SI (set_now s2 (clock s2))) by (eapply SI_same; [| |exact Y]; reflexivity).
-  pose proof (SI_run_timers beh _ n2 H2) as Z.
-  destruct (run_timers beh (set_now s2 (clock s2)) n2) as [[s3 e3] n3]. exact Z.
+  pose proof (SI_run_timers true beh _ n2 H2) as Z.
+  destruct (run_timers true beh (set_now s2 (clock s2)) n2) as [[s3 e3] n3]. exact Z.
 Qed.
 
 Lemma SI_release s res : SI s -> SI (fst (release s res)).
@@ -1219,3 +1220,46 @@ Proof.
     destruct (timer_active (c_timer (getc (upd_h s h h_set_closing) c0))); [|exact I].
     cbn in I. destruct I as [I|I]; [discriminate|exact I].
 Qed.
+
+(* stop while the interval timer is already in the ready queue of the running timer pass: the
+   timer is left alone (it still fires and submits the stat whose completion cleans up) *)
+Lemma stop_in_ready_state s h c rest :
+  h_active (geth s h) = true -> h_chain (geth s h) = c :: rest -> c_timer (getc s c) = TReady ->
+  do_stop s h = upd_h s h (h_set_active false).
+Proof.
+  intros A Ch T. unfold do_stop. rewrite A, Ch, T. reflexivity.
+Qed.
+
+(* ... and timer_cb, later in the same pass, tears such a context down (current code, 56a9a49) *)
+Lemma timer_cb_tears_down s c :
+  let h := c_parent (getc s c) in
+  h_active (geth s h) = false \/ is_head s h c = false ->
+  timer_fire true s c = close_timer s c.
+Proof.
+  intros h Hc. unfold timer_fire. fold h.
+  destruct Hc as [Hc|Hc]; rewrite Hc; cbn [negb andb orb]; [reflexivity|].
+  destruct (negb (h_active (geth s h))); reflexivity.
+Qed.
+
+(* history: before 56a9a49 timer_cb submitted a stat for it *)
+Lemma timer_cb_old_stats s c :
+  timer_fire false s c =
+  set_inflight (upd_c s c (fun x => c_set_inflight true (c_set_start (now s) (c_set_timer TIdle x))))
+               (inflight s ++ [c]).
+Proof. reflexivity. Qed.
+
+(* the failing input of the repaired finding: start (callback 1, path 0, 10 ms); a timer of the
+   script due at the same loop time, started first; its callback: stop; start (callback 2, path 1) *)
+Definition w_pass : list op :=
+  [OInit; OStart 0 1 0 10 0; OTimer 1 10; ORelease w_res1; ORun; OAdvance 10; ORun; ORelease w_res1; ORun;
+   OClose 0; ODrain w_res1].
+Definition w_beh (k : nat) : list op := match k with O => [OStop 0; OStart 0 2 1 10 0] | _ => [] end.
+
+Lemma w_pass_traces :
+  snd (run true (init 1000) w_pass w_beh 0) =
+    [ERet 0; EStat 0; EIter; EIter; EUser 1; ERet 0; ERet 0; EStat 1; EIter; EIter; EIter;
+     EClosed 0 0; EFinal 0 0] /\
+  snd (run false (init 1000) w_pass w_beh 0) =
+    [ERet 0; EStat 0; EIter; EIter; EUser 1; ERet 0; ERet 0; EStat 1; EStat 0; EIter; EIter;
+     EFinal UV_EBUSY 1].
+Proof. split; vm_compute; reflexivity. Qed.
